@@ -69,6 +69,9 @@ Spec == Init /\ [][Next]_vars
 REq(x, y) == x[1] * y[2] = y[1] * x[2]
 ScheduleIndependent ==
   ndone = NP => \A k \in 0..(NP - 1) : REq(table[k][1], Com(PatOf(k))[1]) /\ REq(table[k][2], Com(PatOf(k))[2])
+\* measured origins are write-once: no later step (further batches, background fit, detector-rotation estimate,
+\* origin shift - all of which only READ the table) changes an entry
+TableStable == [][\A k \in DOMAIN table : table'[k] = table[k]]_vars
 ShiftScheduleIndependent == ndone = NP => \A k \in 0..(NP - 1) : oidx[k] = k
 \* the centre of mass lies inside the detector (sanity of the transcription)
 InsideDetector ==
